@@ -297,36 +297,178 @@ def sweep(ctx, max_calls):
     return events
 
 
+def _routes_1d(a, kind):
+    '''every public way to hand a 1-D array to a constructor / functional update (name, thunk)'''
+    ix3 = ('x', 'y', 'z')
+    dt = a.dtype
+    R = [
+        ('Series', lambda: sf.Series(a)),
+        ('Series_dtype_same', lambda: sf.Series(a, dtype=dt)),
+        ('Series_index', lambda: sf.Series(a, index=ix3)),
+        ('SeriesHE', lambda: sf.SeriesHE(a)),
+        ('Series_from_concat', lambda: sf.Series.from_concat((sf.Series(a), sf.Series(a, index=(7, 8, 9))))),
+        ('Frame_from_items', lambda: sf.Frame.from_items((('x', a),))),
+        ('Frame_from_items_dtypes_same', lambda: sf.Frame.from_items((('x', a),), dtypes=dt)),
+        ('Frame_from_items_dtypes_map', lambda: sf.Frame.from_items((('x', a), ('y', a)), dtypes={'x': dt})),
+        ('Frame_from_dict', lambda: sf.Frame.from_dict({'x': a, 'y': a})),
+        ('Frame_from_dict_dtypes_same', lambda: sf.Frame.from_dict({'x': a}, dtypes=(dt,))),
+        ('Frame_from_fields', lambda: sf.Frame.from_fields((a, a), columns=('p', 'q'))),
+        ('Frame_from_fields_dtypes_same', lambda: sf.Frame.from_fields((a,), columns=('p',), dtypes=dt)),
+        ('Frame_from_records_rows', lambda: sf.Frame.from_records((a, a))),
+        ('FrameGO_from_items', lambda: sf.FrameGO.from_items((('x', a),))),
+        ('FrameGO_setitem', lambda: _go_set(a)),
+        ('FrameGO_extend_items', lambda: _go_extend(a)),
+        ('Frame_from_concat_series', lambda: sf.Frame.from_concat((sf.Series(a, name='x'),), axis=1)),
+        ('Frame_from_series', lambda: sf.Frame.from_series(sf.Series(a, name='x'))),
+        ('TypeBlocks_from_blocks', lambda: sf.Frame(sf.TypeBlocks.from_blocks(a))),
+        ('TypeBlocks_from_blocks_two', lambda: sf.Frame(sf.TypeBlocks.from_blocks((a, a)))),
+        ('Frame_assign_column', lambda: sf.Frame.from_dict({'x': (0, 0, 0)}).assign['x'](a)),
+        ('Frame_assign_new_iloc', lambda: sf.Frame.from_dict({'x': (0, 0, 0), 'y': (1, 1, 1)}).assign.iloc[:, 1](a)),
+        ('Frame_insert_after', lambda: sf.Frame.from_dict({'x': (0, 0, 0)}).insert_after('x', sf.Series(a, name='n'))),
+        ('Series_assign_all', lambda: sf.Series((0, 0, 0)).assign[:](a)),
+        ('Series_to_frame', lambda: sf.Series(a, name='x').to_frame()),
+        ('Series_to_frame_go', lambda: sf.Series(a, name='x').to_frame_go()),
+    ]
+    if kind != 'obj':
+        R += [
+            ('Index', lambda: sf.Index(a)),
+            ('Index_dtype_same', lambda: sf.Index(a, dtype=dt)),
+            ('IndexGO', lambda: sf.IndexGO(a)),
+            ('Series_index_array', lambda: sf.Series(range(3), index=a)),
+            ('Frame_index_array', lambda: sf.Frame.from_dict({'x': (0, 0, 0)}, index=a)),
+            ('Frame_columns_array', lambda: sf.Frame.from_records(((0, 0, 0),), columns=a)),
+            ('Series_relabel_array', lambda: sf.Series((1, 2, 3)).relabel(a)),
+            ('Frame_relabel_array', lambda: sf.Frame.from_dict({'x': (0, 0, 0)}).relabel(index=a)),
+            ('Series_reindex_array', lambda: sf.Series((1, 2, 3), index=a.copy()).reindex(a)),
+            ('IndexHierarchy_from_index_items', lambda: sf.IndexHierarchy.from_index_items((('A', sf.Index(a)),))),
+        ]
+    if kind in ('int', 'str'):
+        R += [('IndexHierarchy_from_labels_zip', lambda: sf.IndexHierarchy.from_labels(zip(a, a))),
+              ('IndexHierarchy_from_product', lambda: sf.IndexHierarchy.from_product(a, ('p', 'q')))]
+    if kind == 'date':
+        R += [('IndexDate', lambda: sf.IndexDate(a)), ('IndexDateGO', lambda: sf.IndexDateGO(a))]
+    return R
+
+
+def _go_set(a):
+    f = sf.FrameGO.from_dict({'x': (0, 0, 0)})
+    f['z'] = a
+    return f
+
+
+def _go_extend(a):
+    f = sf.FrameGO.from_dict({'x': (0, 0, 0)})
+    f.extend_items((('z', a), ('w', a)))
+    return f
+
+
+def _routes_2d(a):
+    dt = a.dtype
+    return [
+        ('Frame', lambda: sf.Frame(a)),
+        ('Frame_columns', lambda: sf.Frame(a, columns=('p', 'q'))),
+        ('FrameGO', lambda: sf.FrameGO(a)),
+        ('FrameHE', lambda: sf.FrameHE(a)),
+        ('Frame_from_records_2d', lambda: sf.Frame.from_records(a)),
+        ('Frame_from_records_2d_dtypes_same', lambda: sf.Frame.from_records(a, dtypes=(dt, dt))),
+        ('TypeBlocks_2d', lambda: sf.Frame(sf.TypeBlocks.from_blocks(a))),
+        ('Frame_from_concat_frames', lambda: sf.Frame.from_concat((sf.Frame(a),))),
+        ('Frame_from_concat_arrays_cols', lambda: sf.Frame.from_concat((sf.Frame(a), sf.Frame(a, columns=('p', 'q'))), axis=1)),
+        ('IndexHierarchy_from_labels_2d', lambda: sf.IndexHierarchy.from_labels(a)),
+        ('IndexHierarchy_from_type_blocks', lambda: sf.IndexHierarchy._from_type_blocks(sf.TypeBlocks.from_blocks(a))),
+        ('Frame_assign_block', lambda: sf.Frame.from_records(((0, 0), (0, 0), (0, 0))).assign.iloc[:, :](a)),
+        ('Frame_structured', lambda: sf.Frame.from_structured_array(_structured(a))),
+    ]
+
+
+_STRUCT = {}
+
+
+def _structured(a):
+    '''a structured array that shares nothing with a; the caller then writes into THIS array (kept in _STRUCT)'''
+    sa = np.array([(int(r[0]), float(r[1])) for r in a.tolist()], dtype=[('p', np.int64), ('q', np.float64)])
+    _STRUCT['sa'] = sa
+    return sa
+
+
 def caller_write_events(ctx, n, start):
-    '''arrays supplied by the caller: a later write must never be visible'''
+    '''arrays supplied by the caller: a later write (directly, or through the base the supplied array is a view of) must never be visible,
+    and the constructor must not have changed the caller's array'''
     events = []
+    rng = ctx.rng
     for i in range(n):
-        kind = ctx.rng.choice(['int', 'float', 'str', 'obj', 'date', '2d'])
-        a = {'int': np.array([1, 2, 3]), 'float': np.array([1.5, 2.5, 3.5]), 'str': np.array(['a', 'b', 'c']), 'obj': np.array([1, 'x', None], dtype=object),
-             'date': np.array(['2020-01-01', '2020-01-02', '2020-01-03'], dtype='datetime64[D]'), '2d': np.arange(6).reshape(3, 2)}[kind]
-        ro = ctx.rng.random() < 0.3
-        a.flags.writeable = not ro
-        routes = [lambda: sf.Series(a) if a.ndim == 1 else sf.Frame(a), lambda: sf.Index(a) if a.ndim == 1 and kind != 'obj' else sf.Frame(a.reshape(3, -1)),
-                  lambda: sf.Frame.from_items((('x', a),)) if a.ndim == 1 else sf.Frame(a, columns=('p', 'q')), lambda: sf.Frame(sf.TypeBlocks.from_blocks(a)),
-                  lambda: sf.Series(range(3), index=a) if a.ndim == 1 and kind != 'obj' else sf.Frame(a.reshape(3, -1)),
-                  lambda: sf.FrameGO.from_items((('x', a),)) if a.ndim == 1 else sf.FrameGO(a), lambda: sf.Frame.from_concat((sf.Frame(a.reshape(3, -1)),)),
-                  lambda: sf.IndexHierarchy.from_labels(zip(a, a)) if a.ndim == 1 and kind in ('int', 'str') else sf.Frame(a.reshape(3, -1))]
-        c = ctx.rng.choice(routes)()
+        kind = rng.choice(['int', 'float', 'str', 'obj', 'date', '2d', '2d'])
+        proto = {'int': np.array([1, 2, 3]), 'float': np.array([1.5, 2.5, 3.5]), 'str': np.array(['a', 'b', 'c']), 'obj': np.array([1, 'x', None], dtype=object),
+                 'date': np.array(['2020-01-01', '2020-01-02', '2020-01-03'], dtype='datetime64[D]'), '2d': np.arange(6).reshape(3, 2)}[kind]
+        mode = rng.choice(['own', 'own', 'view_col', 'view_slice', 'readonly'])
+        if kind == '2d':
+            base = np.zeros((5, 2), dtype=proto.dtype)
+            base[1:4] = proto
+            a = base[1:4] if mode.startswith('view') else proto.copy()
+        else:
+            if mode == 'view_col':
+                base = np.empty((3, 2), dtype=proto.dtype)
+                base[:, 0] = proto
+                base[:, 1] = proto
+                a = base[:, 0]
+            elif mode == 'view_slice':
+                base = np.concatenate([proto, proto])
+                a = base[0:3]
+            else:
+                base = None
+                a = proto.copy()
+        if mode == 'readonly':
+            a.flags.writeable = False
+        _STRUCT.clear()
+        name, thunk = rng.choice(_routes_2d(a) if kind == '2d' else _routes_1d(a, kind))
+        before_a = a.copy()
+        w_before = bool(a.flags.writeable)
+        try:
+            c = thunk()
+        except Exception as e:  # a route that does not take this dtype / shape: not a caller-write case
+            ctx.count('V_caller_route_rejected')
+            continue
         before = {'c': deep(c)}
-        wrote = False
-        if a.flags.writeable:
+        # (1) the call itself must leave the caller's array as it was (content and flag)
+        touched = bool(a.flags.writeable) != w_before or not _same_array(a, before_a)
+        # (2) later writes by the caller
+        wrote_visible = False
+        target = _STRUCT.get('sa')
+        if target is not None:
+            target['p'][0] = 77
+            target['q'][1] = -1.0
+        elif mode.startswith('view'):
+            if base.ndim == 2 and kind != '2d':
+                base[0, 0] = base[1, 0]
+                base[2, 0] = base[1, 0]
+            elif kind == '2d':
+                base[1, 0] = 99
+                base[3, 1] = 98
+            else:
+                base[0] = base[1]
+                base[2] = base[1]
+        elif a.flags.writeable:
             if a.ndim == 1:
                 a[0] = a[1]
+                a[2] = a[1]
             else:
                 a[0, 0] = 99
-            wrote_visible = deep(c) != before['c']
-        else:
-            wrote_visible = False
+                a[2, 1] = 98
+        wrote_visible = deep(c) != before['c']
         after = {'c': deep(c)}
         flags = [bool(x.flags.writeable) for x in reachable_arrays(c)]
-        events.append({'id': start + i, 'kind': 'caller_write', 'target': kind, 'attr': 'construct', 'outcome': 'ok', 'before': before, 'after': after, 'flags': flags, 'wrote': bool(wrote_visible), 'alias': False})
+        ev = {'id': start + len(events), 'kind': 'caller_write', 'target': kind, 'attr': 'construct:' + name + ':' + mode, 'outcome': 'ok', 'before': before, 'after': after,
+              'flags': flags, 'wrote': bool(wrote_visible), 'alias': False, 'touched': bool(touched)}
+        events.append(ev)
         ctx.count('V_caller_write')
+        ctx.count('V_caller_mode_' + mode)
     return events
+
+
+def _same_array(x, y):
+    if x.dtype.kind == 'O':
+        return x.tolist() == y.tolist()
+    return bool(np.array_equal(x, y, equal_nan=True) if x.dtype.kind in 'fc' else np.array_equal(x, y))
 
 
 def main(ctx):
@@ -353,8 +495,8 @@ def main(ctx):
         ctx.replayed += 1
     # ---- V
     events = sweep(ctx, 1500 if quick else 100000)
-    events += caller_write_events(ctx, 200 if quick else 3000, len(events))
-    slim = [{k: ev[k] for k in ('id', 'kind', 'before', 'after', 'flags', 'wrote', 'alias')} for ev in events]
+    events += caller_write_events(ctx, 600 if quick else 12000, len(events))
+    slim = [dict({k: ev[k] for k in ('id', 'kind', 'before', 'after', 'flags', 'wrote', 'alias')}, touched=bool(ev.get('touched', False))) for ev in events]
     rej = ctx.validate_events('Trace_Heap', 'Trace.cfg', slim, chunk=120)
     for ev in events:
         if ev['id'] in rej:
@@ -363,4 +505,4 @@ def main(ctx):
                           case={'target': ev['target'], 'attr': ev['attr'], 'changed': changed, 'writeable_arrays': sum(ev['flags'])},
                           expected={k: ev['before'][k] for k in changed}, actual={k: ev['after'][k] for k in changed}, clause=rej[ev['id']][0])
     ctx.sample({'leg': 'V', 'call': {k: events[0][k] for k in ('target', 'attr', 'outcome')}, 'arrays_probed': len(events[0]['flags'])})
-    return ctx.finish(rule='M: SFHeap exhaustive (<=5 arrays, <=3 containers; thorough 6/4); R: simulation behaviours of SFHeap on real arrays/containers over route tables + SFGo behaviours (static objects derived from grow-only ones); V: interface sweep: every public name of 12 fixtures (Series/Frame/Index/IndexHierarchy/HE/GO, every dtype kind, 2-D blocks, hierarchical and date labels) called with an argument table (quick: 450 sampled names), all fixtures deep-snapshotted before/after, every array reachable from every result probed; plus caller-supplied arrays written after construction')
+    return ctx.finish(rule='M: SFHeap exhaustive (<=5 arrays, <=3 containers; thorough 6/4); R: simulation behaviours of SFHeap on real arrays/containers over route tables + SFGo behaviours (static objects derived from grow-only ones); V: interface sweep: every public name of 12 fixtures (Series/Frame/Index/IndexHierarchy/HE/GO, every dtype kind, 2-D blocks, hierarchical and date labels) called with an argument table (quick: 450 sampled names), all fixtures deep-snapshotted before/after, every array reachable from every result probed; plus caller-supplied arrays (own, read-only, or views of a base the caller keeps) handed to ~50 constructor / functional-update routes (with and without a matching dtype argument), then written directly or through the base: never visible, and the call must not change the array of the caller or its flag')
